@@ -73,6 +73,11 @@ func (g *Gen) literalFor(typ string) string {
 	case "blob":
 		return "x'00ff'"
 	}
+	// Now and then a text that looks like a template to HCL: exports have to escape it.
+	if g.T.Chance("template-looking-text", 1, 8) {
+		g.use("template-looking-literal")
+		return []string{"'${d}'", "'%{d}'", "'a$${b}'"}[g.T.Draw("template-text", 3)]
+	}
 	return fmt.Sprintf("'d%d'", g.T.Draw("text-default", 20))
 }
 
@@ -131,7 +136,11 @@ func (g *Gen) indexable(t *Tbl) []*Col {
 // predicate draws the WHERE clause of a partial index in the shapes people write: bare,
 // parenthesised, ending in a list or in a function call.
 func (g *Gen) predicate(c *Col) string {
-	switch g.T.Weighted("predicate-shape", 3, 2, 1, 1) {
+	switch g.T.Weighted("predicate-shape", 3, 2, 1, 1, 1) {
+	case 4:
+		// A string literal that looks like a template to HCL.
+		g.use("template-looking-literal")
+		return q(c.Name) + " <> " + []string{"'${env}'", "'%{if}'"}[g.T.Draw("template-predicate", 2)]
 	case 1:
 		return "(" + q(c.Name) + " IS NOT NULL)"
 	case 2:
